@@ -83,7 +83,12 @@ TPostAcc == /\ IsEvent("post") /\ Ev.k \in {"rd", "wr"}
                /\ e \in {"ldbuf", "ldloc", "sync"} => ToSet(Ev.toks) = node[Ev.id]
                /\ e = "stbuf" => ToSet(Ev.toks) = buf[t]
                /\ e = "stloc" => ToSet(Ev.toks) = loc[t]
-               /\ Apply(t, e, CurF(t), Ev.id)
+               /\ e = "sttmp" => ToSet(Ev.toks) = tmp[t]
+               \* an unlocked read races with the log order: take the value the code really saw
+               /\ IF e = "ldtmp"
+                  THEN /\ tmp' = [tmp EXCEPT ![t] = ToSet(Ev.toks)]
+                       /\ UNCHANGED <<node, entry, buf, loc, acked, fdst, fdw, fdsync, wn>>
+                  ELSE Apply(t, e, CurF(t), Ev.id)
                /\ Advance(t, prog[t], {})
                /\ req' = [req EXCEPT ![t] = FALSE]
             /\ UNCHANGED <<lvars, dev, rdev>>
